@@ -101,11 +101,19 @@ fn presets(r: &mut Rep) {
 }
 
 pub fn dpl_case(r: &mut Rep, base: u64, dpl: u8, system: bool) {
+    dpl_case_tag(r, "C15", base, dpl, system)
+}
+pub fn dpl_case_tag(r: &mut Rep, tag: &str, base: u64, dpl: u8, system: bool) {
     r.ev(true);
     let low = (base & !(3u64 << 45)) | ((dpl as u64) << 45);
-    let d = if system { Descriptor::SystemSegment(low, !base) } else { Descriptor::UserSegment(low) };
-    if d.dpl() as u8 != dpl {
-        r.viol("C15|Descriptor::dpl|wrong", &format!("dpl {:#x} {} {}", base, dpl, system), &format!("{:?}", d.dpl()));
+    // the second word of a system descriptor carries no DPL: try it with the complement and with every other level there
+    let highs: Vec<u64> = if system { vec![!base, 0, 1u64 << 45, 2u64 << 45, 3u64 << 45, low] } else { vec![0] };
+    for hi in highs {
+        let d = if system { Descriptor::SystemSegment(low, hi) } else { Descriptor::UserSegment(low) };
+        if d.dpl() as u8 != dpl {
+            r.viol(&format!("{}|Descriptor::dpl|wrong", tag), &format!("dpl {:#x} {} {}", base, dpl, system), &format!("{:?} (second word {:#x})", d.dpl(), hi));
+            break;
+        }
     }
 }
 
@@ -211,6 +219,7 @@ pub fn run(a: &Args) {
     guarded(&mut r, "C15|layouts|unexpected-panic", || "layout".into(), |r| layouts(r));
     r.nontrivial = r.evals;
     r.sample("tssdesc 0xffff800001000000 (base split over bits 16-39, 56-63 and the high dword)".into());
+    guarded(&mut r, "C15|const-context|unexpected-panic", || "constctx".into(), |r| crate::constctx::tables(r, "C15"));
     r.sample("dpl 0xffffffffffffffff 2 true".into());
     {
         r.note("pointer alphabet = every u64 with <=3 set bits, <=3 clear bits, every contiguous run of ones (~90k values)");
